@@ -114,7 +114,38 @@ func pathOfAddr(c *Ctx, a ssa.Value) string {
 	return pathOfVal(c, a)
 }
 
-func transfersOf(c *Ctx, fn *ssa.Function) []transfer { return transfersOfD(c, fn, 0) }
+// transfersOf: the data movements of fn (helpers read in fn's terms), closed under one kind of
+// chaining: a value parked in a field of a temporary struct (a config literal handed to a
+// constructor helper) counts as moved from where the temporary got it.
+func transfersOf(c *Ctx, fn *ssa.Function) []transfer {
+	ts := transfersOfD(c, fn, 0)
+	for round := 0; round < 2; round++ {
+		from := map[string][]string{}
+		for _, t := range ts {
+			if strings.HasPrefix(t.dst, "new(") && !strings.HasPrefix(t.dst, "new(save)") && !strings.HasPrefix(t.dst, "new(GraphIterator)") {
+				from[t.dst] = append(from[t.dst], t.src)
+			}
+		}
+		seen := map[string]bool{}
+		for _, t := range ts {
+			seen[t.dst+"<-"+t.src] = true
+		}
+		var extra []transfer
+		for _, t := range ts {
+			for _, s2 := range from[t.src] {
+				if k := t.dst + "<-" + s2; !seen[k] {
+					seen[k] = true
+					extra = append(extra, transfer{t.dst, s2, t.in})
+				}
+			}
+		}
+		if len(extra) == 0 {
+			break
+		}
+		ts = append(ts, extra...)
+	}
+	return ts
+}
 
 // substParam rewrites a callee path rooted at one of its parameters into the caller's path.
 func substParam(path string, sub map[string]string) string {
@@ -373,8 +404,23 @@ func ruleCapture(c *Ctx) *RuleResult {
 func sameDerivation(c *Ctx, in ssa.Instruction, name string) bool {
 	load := c.Fn("graph/search.Load")
 	wp := c.Fn("graph/search.WithPruning")
-	if call, isCall := in.(*ssa.Call); isCall && call.Call.StaticCallee() == wp {
-		return true // Load goes through WithPruning: the derivation itself
+	if call, isCall := in.(*ssa.Call); isCall {
+		h := call.Call.StaticCallee()
+		if h == wp {
+			return true // Load goes through WithPruning: the derivation itself
+		}
+		// a constructor helper that WithPruning calls as well: one piece of code derives the field for
+		// both, from the configuration each hands it (checked field by field above)
+		if h != nil {
+			for _, b := range wp.Blocks {
+				for _, i2 := range b.Instrs {
+					if c2, ok := i2.(*ssa.Call); ok && c2.Call.StaticCallee() == h {
+						return true
+					}
+				}
+			}
+		}
+		return false
 	}
 	st, ok := in.(*ssa.Store)
 	if !ok {
